@@ -4,6 +4,8 @@ import (
 	"crypto/tls"
 	"fmt"
 	"net"
+	"runtime"
+	"runtime/debug"
 	"sync"
 	"testing"
 	"time"
@@ -20,6 +22,10 @@ type c08Conn struct {
 	InFlight  string `json:"in_flight"` // none blocked writing
 	K         int    `json:"k"`
 	Transport string `json:"transport"`
+	// Pipelined: the in-flight requests and the ending (unbind / malformed /
+	// unsupported / fin) leave in ONE write, so the connection ends while the
+	// handlers have only just been dispatched.
+	Pipelined bool `json:"pipelined,omitempty"`
 }
 
 type c08Case struct {
@@ -57,6 +63,10 @@ func c08Exec(c c08Case, st *lab.Stats) *lab.Fail {
 	log := &evLog{}
 	g := newGate()
 	defer g.open()
+	// a socket the server forgot to close would be closed by the garbage
+	// collector's finalizer sooner or later: keep the collector out of the
+	// way until the descriptor census at the end has been taken
+	defer func(old int) { debug.SetGCPercent(old); runtime.GC() }(debug.SetGCPercent(-1))
 	var mu sync.Mutex
 	connIDOfTag := map[int]int{}
 	idMismatch := ""
@@ -126,6 +136,9 @@ func c08Exec(c c08Case, st *lab.Stats) *lab.Fail {
 		if c.Mode == "readtimeout" {
 			o.ReadTimeout = 400 * time.Millisecond
 		}
+		if c.Mode == "writetimeout" {
+			o.WriteTimeout = 500 * time.Millisecond
+		}
 		return lab.StartServer(mux, o)
 	}
 	// one plain server (plain + starttls clients) and one TLS server when needed
@@ -178,13 +191,23 @@ func c08Exec(c c08Case, st *lab.Stats) *lab.Fail {
 		_ = cl.Send(simpleReq("bind", base+1).Bytes())
 		if m, err := cl.Next(10 * time.Second); err != nil || m.ID != base+1 {
 			stopAll()
+			if c.Mode == "readtimeout" || c.Mode == "writetimeout" {
+				// the server-side deadline (counted from accept) beat a slow machine
+				st.Inconclusive(fmt.Sprintf("%s mode: first request not answered before the deadline: %v", c.Mode, err))
+				return nil
+			}
 			return lab.Failf("hello-unanswered", "first request on a fresh %s connection was not answered: %v", cs.Transport, err)
 		}
 		if cs.InFlight != "none" {
 			var buf []byte
 			for j := 0; j < cs.K; j++ {
 				buf = append(buf, simpleReq("search", base+10+int64(j)).Bytes()...)
-				inflightTotal++
+				if !(cs.Pipelined && c.Mode == "normal") {
+					inflightTotal++
+				}
+			}
+			if cs.Pipelined && c.Mode == "normal" {
+				buf = append(buf, endingBytes(cs.Ending, base)...)
 			}
 			_ = cl.Send(buf)
 		}
@@ -202,7 +225,7 @@ func c08Exec(c c08Case, st *lab.Stats) *lab.Fail {
 			break
 		}
 		if time.Now().After(deadline) {
-			if c.Mode == "readtimeout" {
+			if c.Mode == "readtimeout" || c.Mode == "writetimeout" {
 				break // the deadline may have fired first; fine
 			}
 			stopAll()
@@ -239,9 +262,21 @@ func c08Exec(c c08Case, st *lab.Stats) *lab.Fail {
 			defer wg.Done()
 			cl := clients[tag]
 			base := int64(tag) * tagStride
+			pipelined := cs.Pipelined && c.Mode == "normal" && cs.InFlight != "none"
 			switch {
 			case c.Mode == "readtimeout":
 				// do nothing: the server's read deadline ends the connection
+			case c.Mode == "writetimeout":
+				// the write deadline (set once at accept) has passed: the gated
+				// handlers' responses fail; then the client says goodbye
+				time.Sleep(time.Duration(c.GateDelayMs+700) * time.Millisecond)
+				_ = cl.Send(simpleReq("unbind", base+99).Bytes())
+			case pipelined && (cs.Ending == "unbind" || cs.Ending == "panic-unbind" || cs.Ending == "malformed" || cs.Ending == "unsupported"):
+				// already sent together with the in-flight requests
+			case pipelined && (cs.Ending == "fin" || cs.Ending == "midframe"):
+				_ = rawConn(cl.C).Close()
+				ends[tag] = endInfo{"client-closed", lab.NextSeq()}
+				return
 			case c.Mode == "stop":
 				// the read loop notices the shutdown only between requests: keep
 				// sending one more request until the server ends the connection
@@ -289,7 +324,11 @@ func c08Exec(c c08Case, st *lab.Stats) *lab.Fail {
 		}(tag, cs)
 	}
 	go func() {
-		time.Sleep(time.Duration(c.GateDelayMs) * time.Millisecond)
+		d := time.Duration(c.GateDelayMs) * time.Millisecond
+		if c.Mode == "writetimeout" {
+			d += 600 * time.Millisecond // after the write deadline has certainly passed
+		}
+		time.Sleep(d)
 		g.open()
 	}()
 	wg.Wait()
@@ -401,6 +440,20 @@ collect:
 	return nil
 }
 
+// endingBytes returns what a server-initiated ending sends.
+func endingBytes(ending string, base int64) []byte {
+	switch ending {
+	case "unbind", "panic-unbind":
+		return simpleReq("unbind", base+99).Bytes()
+	case "malformed":
+		return []byte{0x30, 0x05, 0x02, 0x01, 0x01, 0x04, 0x00}
+	case "unsupported":
+		return ReqSpec{Req: wire.Req{Kind: "raw", MsgID: base + 96, RawTag: wire.AppCompareRequest, RawConstructed: true,
+			RawContent: append(wire.Str("cn=x").Bytes(), wire.Seq(wire.Str("cn"), wire.Str("x")).Bytes()...)}}.Bytes()
+	}
+	return nil
+}
+
 func countServers(s ...*lab.Server) int {
 	n := 0
 	for _, x := range s {
@@ -421,10 +474,10 @@ func endingName(mode, ending string) string {
 func TestC08(t *testing.T) {
 	lab.Prop[c08Case]{
 		ID: "C08", Part: "endings",
-		Rule: "rapid scenarios: 1..12 (occasionally 32) connections over plain/TLS/StartTLS, each with 0..4 handlers in flight (blocked on a gate that opens 0..60 ms AFTER the ending was triggered, or writing 3 MB to a client that does not read), ending by client FIN, client RST, Unbind, malformed frame, unsupported operation, mid-frame disconnect, panicking unbind handler (recovered), server read timeout, or server Stop followed by one more request; oracle = exactly one OnClose per connection with the ConnectionID its handlers saw, stamped after every handler exit of that connection; for server-initiated endings the client's EOF/RST is also stamped after every handler exit; afterwards no connection goroutine and no socket descriptor remains; non-trivial = >= 1 handler in flight when the ending happened; distinct by hash",
+		Rule: "rapid scenarios: 1..12 (occasionally 32) connections over plain/TLS/StartTLS, each with 0..4 handlers in flight (blocked on a gate that opens 0..60 ms AFTER the ending was triggered, or writing 3 MB to a client that does not read), ending by client FIN, client RST, Unbind, malformed frame, unsupported operation, mid-frame disconnect, panicking unbind handler (recovered), server read timeout, server write timeout (handlers' responses fail, then Unbind), or server Stop followed by more requests; the in-flight requests and the ending may leave in ONE write (handlers only just dispatched when the connection ends); oracle = exactly one OnClose per connection with the ConnectionID its handlers saw, stamped after every handler exit of that connection; for server-initiated endings the client's EOF/RST is also stamped after every handler exit; afterwards no connection goroutine and no socket descriptor remains (garbage collector disabled during the scenario so that a finalizer cannot hide a forgotten close); non-trivial = >= 1 handler in flight when the ending happened; distinct by hash",
 		Gen: func(t *rapid.T) c08Case {
 			c := c08Case{
-				Mode:        rapid.SampledFrom([]string{"normal", "normal", "normal", "normal", "readtimeout", "stop"}).Draw(t, "mode"),
+				Mode:        rapid.SampledFrom([]string{"normal", "normal", "normal", "normal", "normal", "readtimeout", "writetimeout", "stop"}).Draw(t, "mode"),
 				GateDelayMs: rapid.SampledFrom([]int{0, 2, 10, 30, 60}).Draw(t, "gatedelay"),
 			}
 			n := rapid.IntRange(1, 12).Draw(t, "nconns")
@@ -438,7 +491,8 @@ func TestC08(t *testing.T) {
 					K:         rapid.IntRange(1, 4).Draw(t, "k"),
 					Transport: rapid.SampledFrom([]string{"plain", "plain", "tls", "starttls"}).Draw(t, "transport"),
 				}
-				if c.Mode == "readtimeout" && cs.InFlight == "writing" {
+				cs.Pipelined = rapid.IntRange(0, 2).Draw(t, "pipelined") == 0
+				if (c.Mode == "readtimeout" || c.Mode == "writetimeout") && cs.InFlight == "writing" {
 					cs.InFlight = "blocked"
 				}
 				c.Conns = append(c.Conns, cs)
